@@ -71,6 +71,50 @@ def _billing(cin, variant):
     return out
 
 
+CAL_STARTS = {"w": "2019-01-15", "a": "2019-08-20", "m": "2019-03-01"}     # calendars crossing the March / the autumn clock change, starting on a month boundary
+
+
+def _calendar(cin, variant):
+    """a read calendar of arbitrary period lengths (the cycle is not declared); the net clock shift inside each period is
+    measured from the real dates and written into the refined abstract input"""
+    em = _st["em"]
+    variant, zone = split_variant(variant)
+    form, _, st = variant.partition("#")
+    pers = cin["periods"]
+    bounds = [pd.Timestamp(CAL_STARTS[st or "w"])]
+    for p in pers:
+        bounds.append(bounds[-1] + pd.Timedelta(days=p["len"]))
+    bidx = pd.DatetimeIndex(bounds).tz_localize(zone)
+    pers2 = []
+    for k, p in enumerate(pers):
+        minutes = int((bidx[k + 1] - bidx[k]).total_seconds() // 60)
+        pers2.append(dict(p, extra=minutes - 1440 * p["len"]))
+    in2 = dict(cin, periods=pers2)
+    meter = pd.Series([float(p["amount"]) for p in pers] + [np.nan], index=bidx, name="observed")
+    days = pd.date_range(bidx[0], bidx[-1], freq="D")
+    temp = pd.Series(50.0 + (np.arange(len(days)) % 20), index=days, name="temperature")
+    out = {"res": "ok", "periods": []}
+    try:
+        C = em.BillingBaselineData if form == "baseline" else em.BillingReportingData
+        obj = C.from_series(meter, temp, is_electricity_data=False)
+        df = obj.df
+    except Exception as ex:
+        out["res"] = type(ex).__name__
+        out["err"] = str(ex)[:200]
+        return {"in2": in2, "out": out}
+    obs = df["observed"] if "observed" in df.columns else pd.Series(np.nan, index=df.index)
+    for k, p in enumerate(pers):
+        sel = obs[(obs.index >= bidx[k]) & (obs.index < bidx[k + 1])]
+        fin = sel.dropna()
+        rec = {"present": bool(len(fin) > 0), "ndays": int(len(fin)), "sn": 0, "sd": 1, "sok": False, "pn": 0, "pd": 1, "pok": False}
+        if len(fin):
+            rec["sn"], rec["sd"], rec["sok"] = snap(float(fin.sum()))
+            plain = float(fin.round(9).mode().iloc[0])
+            rec["pn"], rec["pd"], rec["pok"] = snap(plain)
+        out["periods"].append(rec)
+    return {"in2": in2, "out": out}
+
+
 # zone -> dates of a plain day, the 23-hour day and the 25-hour day of 2019 (whole-hour clock changes)
 ZONE_DAYS = {
     "America/Chicago":  {1440: "2019-05-15", 1380: "2019-03-10", 1500: "2019-11-03"},
@@ -184,21 +228,21 @@ def _temp(cin, variant):
 
 def realise(cin, variant):
     try:
-        return {"billing": _billing, "subdaily": _subdaily, "temp": _temp}[cin["kind"]](cin, variant)
+        return {"billing": _billing, "calendar": _calendar, "subdaily": _subdaily, "temp": _temp}[cin["kind"]](cin, variant)
     except Exception as ex:
         import traceback
         return {"res": "DriverError:" + type(ex).__name__, "err": (str(ex) + traceback.format_exc())[-300:], "periods": [], "has": False, "n": 0, "d": 1, "ok": False, "notnull": -1, "null": -1}
 
 
 def nontrivial(cin, out):
-    return cin["kind"] == "billing" or len(cin["missing"]) > 0
+    return cin["kind"] in ("billing", "calendar") or len(cin["missing"]) > 0
 
 
 def corruptions(cin, out):
     import copy
     if out["res"] != "ok":
         return
-    if cin["kind"] == "billing":
+    if cin["kind"] in ("billing", "calendar"):
         for k, p in enumerate(out["periods"]):
             if p["present"]:
                 o = copy.deepcopy(out); o["periods"][k]["sn"] += o["periods"][k]["sd"]; yield "sum", o
